@@ -1410,7 +1410,9 @@ impl AuthorBindingObserver {
                     use nostr::JsonUtil;
                     nostr::UnsignedEvent::from_json(&x.event_json)
                 } {
-                    if ev.pubkey.to_hex() != x.pubkey || ev.content != x.content || ev.created_at.as_secs() != x.created_at || ev.kind.as_u16() != x.kind {
+                    // (an id carried inside the stored rumor is part of the stored event too)
+                    let inner_id_differs = ev.id.map(|i| i.to_hex() != x.id).unwrap_or(false);
+                    if inner_id_differs || ev.pubkey.to_hex() != x.pubkey || ev.content != x.content || ev.created_at.as_secs() != x.created_at || ev.kind.as_u16() != x.kind {
                         return Err(Failure::new(
                             "stored-event-differs-from-stored-columns",
                             format!("{ctx}: c{who} message {}", crate::fingerprint::sh(&x.id, 8)),
@@ -1790,6 +1792,16 @@ impl SnapshotObserver {
             }
         }
         let listed = list_snapshots(w, who).map_err(|e| Failure::new("snapshot-listing-failed", format!("c{who}: {e}")))?;
+        // start-up prunes by age: with a short time-to-live whatever is gone after a restart was
+        // old enough (how old exactly is judged by the timed start-up check at the end)
+        if what == "restart" && cl.cfg.ttl < 86_400 {
+            let gid_hex = hex::encode(w.gid.as_slice());
+            let before = model.len();
+            model.retain(|(e, id)| listed.iter().any(|(n, _)| *n == format!("snap_{gid_hex}_{e}_{id}")));
+            if model.len() < before {
+                self.classes.insert("pruned-by-age-at-start-up".into());
+            }
+        }
         self.checks += 1;
         self.max_seen = self.max_seen.max(listed.len());
         if listed.len() > retention {
